@@ -144,6 +144,26 @@ fn exec<'a>(kind: &str, it: &'a Item, open: &mut Option<Open<'a>>) -> Res {
 				}
 			}
 		}
+		"arrow_roundtrip" => {
+			// frames -> Arrow struct array (schema of this version and these ports) -> frames -> .slp bytes
+			let g = match real::read_slp_noopts(b) {
+				Outcome::Ok(g) => g,
+				o => return Res::Other(format!("read before export: {} {}", o.kind(), o.detail())),
+			};
+			let ver = g.start.slippi.version;
+			let occ = peppi::game::port_occupancy(&g.start);
+			let res = crate::util::guard_plain(|| {
+				let peppi::game::immutable::Game { start, end, frames, metadata, gecko_codes, hash, quirks } = g;
+				let arr = frames.into_struct_array(ver, &occ);
+				let back = peppi::frame::immutable::Frame::from_struct_array(arr, ver);
+				let g2 = peppi::game::immutable::Game { start, end, frames: back, metadata, gecko_codes, hash, quirks };
+				real::write_slp(&g2)
+			});
+			match res {
+				Outcome::Ok(o) => of_bytes(o),
+				o => Res::Other(format!("{}: {}", o.kind(), o.detail())),
+			}
+		}
 		"read_slpp" => of_game(real::read_slpp(&it.arch, false)),
 		"read_slpp_skip" => of_game(real::read_slpp(&it.arch, true)),
 		"read_slpp_cut" => of_game(real::read_slpp(&it.arch[..it.slpp_cut], false)),
@@ -263,6 +283,8 @@ pub fn cmd_session(a: &Args) {
 		("C", [3, 7, 0], vec!["ic", "none", "single", "none"], 2, 2, 1),
 		("C", [3, 0, 0], vec!["none", "ic", "none", "none"], 0, 0, 0),
 		("A", [0, 1, 0], vec!["single", "single", "none", "none"], 6, 0, 0),
+		("C", [3, 16, 0], vec!["none", "single", "single", "none"], 2, 1, 0),
+		("C", [3, 16, 0], vec!["single", "none", "none", "none"], 2, 0, 0),
 	];
 	let pool: Vec<Item> = shapes
 		.iter()
@@ -291,7 +313,7 @@ pub fn cmd_session(a: &Args) {
 	// what each call returns on a fresh thread
 	let kinds = [
 		"read_slp", "read_slp_hash", "read_slp_skip", "read_slp_cut", "read_slp_bad", "write_slp", "write_slp_fail", "write_slpp",
-		"write_slpp_fail_early", "write_slpp_fail_late", "read_slpp", "read_slpp_skip", "read_slpp_cut", "inc_finish",
+		"write_slpp_fail_early", "write_slpp_fail_late", "read_slpp", "read_slpp_skip", "read_slpp_cut", "arrow_roundtrip", "inc_finish",
 	];
 	let mut fresh: HashMap<(usize, String), Res> = HashMap::new();
 	for (i, it) in pool.iter().enumerate() {
@@ -330,6 +352,7 @@ pub fn cmd_session(a: &Args) {
 			chk_k(k, *f(k) == Res::Err, &format!("{} on a fresh thread: {} (the model: an error)", k, f(k).brief()));
 		}
 		chk_k("write_slp", *f("write_slp") == Res::Bytes(it.built.bytes.clone()), "write_slp on a fresh thread does not reproduce the file");
+		chk_k("arrow_roundtrip", *f("arrow_roundtrip") == Res::Bytes(it.built.bytes.clone()), "frames -> Arrow -> frames on a fresh thread does not serialise to the file");
 		match (f("read_slpp"), f("read_slp_hash")) {
 			(Res::Game(a), Res::Game(b)) => {
 				chk(a.start == b.start && a.end == b.end && a.meta == b.meta && a.gecko == b.gecko && a.hash == b.hash && a.quirk == b.quirk, "read_slpp differs from read_slp with the hash outside the frames");
@@ -360,7 +383,7 @@ pub fn cmd_session(a: &Args) {
 			let nthreads = calls.iter().map(|c| c.2).max().unwrap_or(1);
 			// with a pair rotating through the pool, and with a pair of the same version and different ports
 			let rot = (idx % n, (idx % n + 1 + (idx / n) % (n - 1)) % n);
-			for (g1, g2) in [rot, [(0usize, 1usize), (1, 0), (2, 3), (3, 2)][idx % 4]] {
+			for (g1, g2) in [rot, [(0usize, 1usize), (1, 0), (2, 3), (3, 2), (0, 8), (8, 0), (9, 8), (8, 1), (1, 9), (9, 0)][idx % 10]] {
 				let text: Vec<String> = calls.iter().map(|(k, g, t)| if nthreads > 1 { format!("t{}:{}({})", t, k, g) } else { format!("{}({})", k, g) }).collect();
 				sink.count(fnv(format!("{:?}{}{}", text, g1, g2).as_bytes()), calls.iter().any(|(k, _, _)| k.contains("fail") || k.contains("cut") || k.contains("bad") || k == "inc_drop"));
 				sink.sample(|| json!({"calls": text, "pool": [g1, g2]}));
